@@ -254,6 +254,27 @@ theorem range_check (x mx : Nat) (hmx : mx < 2047 * 2^52) (hnan : isNaN64 x = fa
     rw [if_neg a]; omega
   · rw [if_pos hs]; omega
 
+/-- a non-NaN double passes `-mx <= x <= mx` exactly when its magnitude is at most `mx` (`mx` finite, positive pattern) -/
+theorem bounds_check (x mx : Nat) (hmx : mx < 2047 * 2^52) (hnan : isNaN64 x = false) :
+    (fle (2^63 + mx) x && fle x mx) = true ↔ x % 2^63 ≤ mx := by
+  have n1 : isNaN64 (2^63 + mx) = false := by rw [isNaN64_false_iff]; omega
+  have n2 : isNaN64 mx = false := by rw [isNaN64_false_iff]; omega
+  have k1 : key64 (2^63 + mx) = -(mx : Int) := by
+    have a : sign64 (2^63 + mx) = 1 := by simp only [sign64]; omega
+    have b : (2^63 + mx) % 2^63 = mx := by omega
+    simp only [key64, a, b, if_true]
+  have k2 : key64 mx = (mx : Int) := by
+    have a : ¬ (sign64 mx = 1) := by simp only [sign64]; omega
+    have b : mx % 2^63 = mx := by omega
+    simp only [key64, b]; rw [if_neg a]
+  simp only [fle, n1, n2, hnan, k1, k2, Bool.not_false, Bool.true_and, Bool.and_eq_true, decide_eq_true_eq]
+  simp only [key64]
+  have hs : sign64 x = 0 ∨ sign64 x = 1 := by simp only [sign64]; omega
+  rcases hs with hs | hs
+  · have a : ¬ (sign64 x = 1) := by omega
+    rw [if_neg a]; omega
+  · rw [if_pos hs]; omega
+
 /-- a NaN passes every `x < lo or x > hi` range check -/
 theorem range_check_nan (x lo hi : Nat) (hnan : isNaN64 x = true) : (flt x lo || flt hi x) = false := by
   simp [flt, hnan]
